@@ -1,5 +1,5 @@
 // auto-generated: "lalrpop 0.23.1"
-// sha3: 786967b3e156b68242703d17d95302fe0eb8bf01d3607039fb374c0c541c3373
+// sha3: 96636905396c7f2b4fd966bb0a10fdee53cb1d642fd96971d30d70ae110f6c80
 use crate::rt::*;
 #[allow(unused_extern_crates)]
 extern crate lalrpop_util as __lalrpop_util;
@@ -65,8 +65,7 @@ mod __parse__S {
      {
         _40L((i64, i64, i64)),
         _40R((i64, i64, i64)),
-        Q((i64, Tree, i64)),
-        R((i64, Tree, i64)),
+        Q0((i64, Tree, i64)),
         S((i64, Tree, i64)),
         X((i64, Tree, i64)),
         Y((i64, Tree, i64)),
@@ -121,7 +120,7 @@ mod __parse__S {
             let (__lookahead, __nt) = __result;
             match __nt {
                 __Nonterminal::S(__sym0) => {
-                    __result = __state7(__tokens, __lookahead, __sym0, core::marker::PhantomData::<()>)?;
+                    __result = __state5(__tokens, __lookahead, __sym0, core::marker::PhantomData::<()>)?;
                 }
                 _ => {
                     return Ok((__lookahead, __nt));
@@ -178,11 +177,11 @@ mod __parse__S {
             let (__lookahead, __nt) = __result;
             match __nt {
                 __Nonterminal::X(__sym1) => {
-                    __result = __state8(__tokens, __lookahead, __sym0, __sym1, core::marker::PhantomData::<()>)?;
+                    __result = __state6(__tokens, __lookahead, __sym0, __sym1, core::marker::PhantomData::<()>)?;
                     return Ok(__result);
                 }
                 __Nonterminal::Y(__sym1) => {
-                    __result = __state9(__tokens, __lookahead, __sym0, __sym1, core::marker::PhantomData::<()>)?;
+                    __result = __state7(__tokens, __lookahead, __sym0, __sym1, core::marker::PhantomData::<()>)?;
                     return Ok(__result);
                 }
                 _ => {
@@ -209,7 +208,7 @@ mod __parse__S {
         match __lookahead {
             Some((__loc1, __tok @ Tok('e', _, _, _), __loc2)) => {
                 let __sym1 = (__loc1, (__tok), __loc2);
-                __result = __state5(__tokens, __sym1, core::marker::PhantomData::<()>)?;
+                __result = __state4(__tokens, __sym1, core::marker::PhantomData::<()>)?;
             }
             _ => {
                 #[allow(clippy::needless_raw_string_hashes)]
@@ -240,11 +239,11 @@ mod __parse__S {
             let (__lookahead, __nt) = __result;
             match __nt {
                 __Nonterminal::X(__sym1) => {
-                    __result = __state10(__tokens, __lookahead, __sym0, __sym1, core::marker::PhantomData::<()>)?;
+                    __result = __state8(__tokens, __lookahead, __sym0, __sym1, core::marker::PhantomData::<()>)?;
                     return Ok(__result);
                 }
                 __Nonterminal::Y(__sym1) => {
-                    __result = __state11(__tokens, __lookahead, __sym0, __sym1, core::marker::PhantomData::<()>)?;
+                    __result = __state9(__tokens, __lookahead, __sym0, __sym1, core::marker::PhantomData::<()>)?;
                     return Ok(__result);
                 }
                 _ => {
@@ -272,7 +271,7 @@ mod __parse__S {
         match __lookahead {
             Some((__loc1, __tok @ Tok('f', _, _, _), __loc2)) => {
                 let __sym1 = (__loc1, (__tok), __loc2);
-                __result = __state14(__tokens, __sym1, core::marker::PhantomData::<()>)?;
+                __result = __state13(__tokens, __sym1, core::marker::PhantomData::<()>)?;
             }
             _ => {
                 #[allow(clippy::needless_raw_string_hashes)]
@@ -309,8 +308,8 @@ mod __parse__S {
             }
             let (__lookahead, __nt) = __result;
             match __nt {
-                __Nonterminal::Q(__sym1) => {
-                    __result = __state4(__tokens, __lookahead, __sym0, __sym1, core::marker::PhantomData::<()>)?;
+                __Nonterminal::Q0(__sym1) => {
+                    __result = __state12(__tokens, __lookahead, __sym0, __sym1, core::marker::PhantomData::<()>)?;
                 }
                 _ => {
                     return Ok((__lookahead, __nt));
@@ -320,82 +319,6 @@ mod __parse__S {
     }
 
     fn __state4<
-        __TOKENS: Iterator<Item=Result<(i64, Tok, i64),__lalrpop_util::ParseError<i64, Tok, u64>>>,
-    >(
-        __tokens: &mut __TOKENS,
-        __lookahead: Option<(i64, Tok, i64)>,
-        __sym0: &mut Option<(i64, Tok, i64)>,
-        __sym1: (i64, Tree, i64),
-        _: core::marker::PhantomData<()>,
-    ) -> Result<(Option<(i64, Tok, i64)>, __Nonterminal<>), __lalrpop_util::ParseError<i64, Tok, u64>>
-    {
-        let mut __result: (Option<(i64, Tok, i64)>, __Nonterminal<>);
-        match __lookahead {
-            Some((__loc1, __tok @ Tok('f', _, _, _), __loc2)) => {
-                let __sym2 = (__loc1, (__tok), __loc2);
-                __result = __state18(__tokens, __sym1, __sym2, core::marker::PhantomData::<()>)?;
-                return Ok(__result);
-            }
-            Some((__loc1, __tok @ Tok('g', _, _, _), __loc2)) => {
-                let __sym2 = (__loc1, (__tok), __loc2);
-                __result = __state19(__tokens, __sym2, core::marker::PhantomData::<()>)?;
-            }
-            Some((_, Tok('c', _, _, _), _)) |
-            Some((_, Tok('d', _, _, _), _)) => {
-                let __start = __lookahead.as_ref().map(|o| o.0.clone()).unwrap_or_else(|| __sym1.2.clone());
-                let __end = __start.clone();
-                let __nt = super::__action25::<>(&__start, &__end);
-                let __nt = __Nonterminal::R((
-                    __start,
-                    __nt,
-                    __end,
-                ));
-                __result = (__lookahead, __nt);
-            }
-            _ => {
-                #[allow(clippy::needless_raw_string_hashes)]
-                let __expected = alloc::vec![
-                    r###""c""###.to_string(),
-                    r###""d""###.to_string(),
-                    r###""q""###.to_string(),
-                    r###""r""###.to_string(),
-                ];
-                return Err(
-                    match __lookahead {
-                        Some(__token) => {
-                            __lalrpop_util::ParseError::UnrecognizedToken {
-                                token: __token,
-                                expected: __expected,
-                            }
-                        }
-                        None => {
-                            let __location = __sym1.2.clone();
-                            __lalrpop_util::ParseError::UnrecognizedEof {
-                                location: __location,
-                                expected: __expected,
-                            }
-                        }
-                    }
-                )
-            }
-        }
-        #[allow(clippy::never_loop)]
-        loop {
-            let (__lookahead, __nt) = __result;
-            match __nt {
-                __Nonterminal::R(__sym2) => {
-                    let __sym0 = __sym0.take().unwrap();
-                    __result = __state17(__tokens, __lookahead, __sym0, __sym1, __sym2, core::marker::PhantomData::<()>)?;
-                    return Ok(__result);
-                }
-                _ => {
-                    return Ok((__lookahead, __nt));
-                }
-            }
-        }
-    }
-
-    fn __state5<
         __TOKENS: Iterator<Item=Result<(i64, Tok, i64),__lalrpop_util::ParseError<i64, Tok, u64>>>,
     >(
         __tokens: &mut __TOKENS,
@@ -413,7 +336,7 @@ mod __parse__S {
         match __lookahead {
             Some((__loc1, __tok @ Tok('f', _, _, _), __loc2)) => {
                 let __sym1 = (__loc1, (__tok), __loc2);
-                __result = __state14(__tokens, __sym1, core::marker::PhantomData::<()>)?;
+                __result = __state13(__tokens, __sym1, core::marker::PhantomData::<()>)?;
             }
             _ => {
                 #[allow(clippy::needless_raw_string_hashes)]
@@ -450,8 +373,8 @@ mod __parse__S {
             }
             let (__lookahead, __nt) = __result;
             match __nt {
-                __Nonterminal::Q(__sym1) => {
-                    __result = __state6(__tokens, __lookahead, __sym0, __sym1, core::marker::PhantomData::<()>)?;
+                __Nonterminal::Q0(__sym1) => {
+                    __result = __state17(__tokens, __lookahead, __sym0, __sym1, core::marker::PhantomData::<()>)?;
                 }
                 _ => {
                     return Ok((__lookahead, __nt));
@@ -460,83 +383,7 @@ mod __parse__S {
         }
     }
 
-    fn __state6<
-        __TOKENS: Iterator<Item=Result<(i64, Tok, i64),__lalrpop_util::ParseError<i64, Tok, u64>>>,
-    >(
-        __tokens: &mut __TOKENS,
-        __lookahead: Option<(i64, Tok, i64)>,
-        __sym0: &mut Option<(i64, Tok, i64)>,
-        __sym1: (i64, Tree, i64),
-        _: core::marker::PhantomData<()>,
-    ) -> Result<(Option<(i64, Tok, i64)>, __Nonterminal<>), __lalrpop_util::ParseError<i64, Tok, u64>>
-    {
-        let mut __result: (Option<(i64, Tok, i64)>, __Nonterminal<>);
-        match __lookahead {
-            Some((__loc1, __tok @ Tok('f', _, _, _), __loc2)) => {
-                let __sym2 = (__loc1, (__tok), __loc2);
-                __result = __state18(__tokens, __sym1, __sym2, core::marker::PhantomData::<()>)?;
-                return Ok(__result);
-            }
-            Some((__loc1, __tok @ Tok('g', _, _, _), __loc2)) => {
-                let __sym2 = (__loc1, (__tok), __loc2);
-                __result = __state19(__tokens, __sym2, core::marker::PhantomData::<()>)?;
-            }
-            Some((_, Tok('c', _, _, _), _)) |
-            Some((_, Tok('d', _, _, _), _)) => {
-                let __start = __lookahead.as_ref().map(|o| o.0.clone()).unwrap_or_else(|| __sym1.2.clone());
-                let __end = __start.clone();
-                let __nt = super::__action25::<>(&__start, &__end);
-                let __nt = __Nonterminal::R((
-                    __start,
-                    __nt,
-                    __end,
-                ));
-                __result = (__lookahead, __nt);
-            }
-            _ => {
-                #[allow(clippy::needless_raw_string_hashes)]
-                let __expected = alloc::vec![
-                    r###""c""###.to_string(),
-                    r###""d""###.to_string(),
-                    r###""q""###.to_string(),
-                    r###""r""###.to_string(),
-                ];
-                return Err(
-                    match __lookahead {
-                        Some(__token) => {
-                            __lalrpop_util::ParseError::UnrecognizedToken {
-                                token: __token,
-                                expected: __expected,
-                            }
-                        }
-                        None => {
-                            let __location = __sym1.2.clone();
-                            __lalrpop_util::ParseError::UnrecognizedEof {
-                                location: __location,
-                                expected: __expected,
-                            }
-                        }
-                    }
-                )
-            }
-        }
-        #[allow(clippy::never_loop)]
-        loop {
-            let (__lookahead, __nt) = __result;
-            match __nt {
-                __Nonterminal::R(__sym2) => {
-                    let __sym0 = __sym0.take().unwrap();
-                    __result = __state20(__tokens, __lookahead, __sym0, __sym1, __sym2, core::marker::PhantomData::<()>)?;
-                    return Ok(__result);
-                }
-                _ => {
-                    return Ok((__lookahead, __nt));
-                }
-            }
-        }
-    }
-
-    fn __state7<
+    fn __state5<
         __TOKENS: Iterator<Item=Result<(i64, Tok, i64),__lalrpop_util::ParseError<i64, Tok, u64>>>,
     >(
         __tokens: &mut __TOKENS,
@@ -584,7 +431,7 @@ mod __parse__S {
         }
     }
 
-    fn __state8<
+    fn __state6<
         __TOKENS: Iterator<Item=Result<(i64, Tok, i64),__lalrpop_util::ParseError<i64, Tok, u64>>>,
     >(
         __tokens: &mut __TOKENS,
@@ -598,13 +445,99 @@ mod __parse__S {
         match __lookahead {
             Some((__loc1, __tok @ Tok('d', _, _, _), __loc2)) => {
                 let __sym2 = (__loc1, (__tok), __loc2);
-                __result = __state12(__tokens, __sym0, __sym1, __sym2, core::marker::PhantomData::<()>)?;
+                __result = __state10(__tokens, __sym0, __sym1, __sym2, core::marker::PhantomData::<()>)?;
                 return Ok(__result);
             }
             _ => {
                 #[allow(clippy::needless_raw_string_hashes)]
                 let __expected = alloc::vec![
                     r###""d""###.to_string(),
+                ];
+                return Err(
+                    match __lookahead {
+                        Some(__token) => {
+                            __lalrpop_util::ParseError::UnrecognizedToken {
+                                token: __token,
+                                expected: __expected,
+                            }
+                        }
+                        None => {
+                            let __location = __sym1.2.clone();
+                            __lalrpop_util::ParseError::UnrecognizedEof {
+                                location: __location,
+                                expected: __expected,
+                            }
+                        }
+                    }
+                )
+            }
+        }
+    }
+
+    fn __state7<
+        __TOKENS: Iterator<Item=Result<(i64, Tok, i64),__lalrpop_util::ParseError<i64, Tok, u64>>>,
+    >(
+        __tokens: &mut __TOKENS,
+        __lookahead: Option<(i64, Tok, i64)>,
+        __sym0: (i64, Tok, i64),
+        __sym1: (i64, Tree, i64),
+        _: core::marker::PhantomData<()>,
+    ) -> Result<(Option<(i64, Tok, i64)>, __Nonterminal<>), __lalrpop_util::ParseError<i64, Tok, u64>>
+    {
+        let mut __result: (Option<(i64, Tok, i64)>, __Nonterminal<>);
+        match __lookahead {
+            Some((__loc1, __tok @ Tok('c', _, _, _), __loc2)) => {
+                let __sym2 = (__loc1, (__tok), __loc2);
+                __result = __state11(__tokens, __sym0, __sym1, __sym2, core::marker::PhantomData::<()>)?;
+                return Ok(__result);
+            }
+            _ => {
+                #[allow(clippy::needless_raw_string_hashes)]
+                let __expected = alloc::vec![
+                    r###""c""###.to_string(),
+                ];
+                return Err(
+                    match __lookahead {
+                        Some(__token) => {
+                            __lalrpop_util::ParseError::UnrecognizedToken {
+                                token: __token,
+                                expected: __expected,
+                            }
+                        }
+                        None => {
+                            let __location = __sym1.2.clone();
+                            __lalrpop_util::ParseError::UnrecognizedEof {
+                                location: __location,
+                                expected: __expected,
+                            }
+                        }
+                    }
+                )
+            }
+        }
+    }
+
+    fn __state8<
+        __TOKENS: Iterator<Item=Result<(i64, Tok, i64),__lalrpop_util::ParseError<i64, Tok, u64>>>,
+    >(
+        __tokens: &mut __TOKENS,
+        __lookahead: Option<(i64, Tok, i64)>,
+        __sym0: (i64, Tok, i64),
+        __sym1: (i64, Tree, i64),
+        _: core::marker::PhantomData<()>,
+    ) -> Result<(Option<(i64, Tok, i64)>, __Nonterminal<>), __lalrpop_util::ParseError<i64, Tok, u64>>
+    {
+        let mut __result: (Option<(i64, Tok, i64)>, __Nonterminal<>);
+        match __lookahead {
+            Some((__loc1, __tok @ Tok('c', _, _, _), __loc2)) => {
+                let __sym2 = (__loc1, (__tok), __loc2);
+                __result = __state14(__tokens, __sym0, __sym1, __sym2, core::marker::PhantomData::<()>)?;
+                return Ok(__result);
+            }
+            _ => {
+                #[allow(clippy::needless_raw_string_hashes)]
+                let __expected = alloc::vec![
+                    r###""c""###.to_string(),
                 ];
                 return Err(
                     match __lookahead {
@@ -639,15 +572,15 @@ mod __parse__S {
     {
         let mut __result: (Option<(i64, Tok, i64)>, __Nonterminal<>);
         match __lookahead {
-            Some((__loc1, __tok @ Tok('c', _, _, _), __loc2)) => {
+            Some((__loc1, __tok @ Tok('d', _, _, _), __loc2)) => {
                 let __sym2 = (__loc1, (__tok), __loc2);
-                __result = __state13(__tokens, __sym0, __sym1, __sym2, core::marker::PhantomData::<()>)?;
+                __result = __state15(__tokens, __sym0, __sym1, __sym2, core::marker::PhantomData::<()>)?;
                 return Ok(__result);
             }
             _ => {
                 #[allow(clippy::needless_raw_string_hashes)]
                 let __expected = alloc::vec![
-                    r###""c""###.to_string(),
+                    r###""d""###.to_string(),
                 ];
                 return Err(
                     match __lookahead {
@@ -674,92 +607,6 @@ mod __parse__S {
         __TOKENS: Iterator<Item=Result<(i64, Tok, i64),__lalrpop_util::ParseError<i64, Tok, u64>>>,
     >(
         __tokens: &mut __TOKENS,
-        __lookahead: Option<(i64, Tok, i64)>,
-        __sym0: (i64, Tok, i64),
-        __sym1: (i64, Tree, i64),
-        _: core::marker::PhantomData<()>,
-    ) -> Result<(Option<(i64, Tok, i64)>, __Nonterminal<>), __lalrpop_util::ParseError<i64, Tok, u64>>
-    {
-        let mut __result: (Option<(i64, Tok, i64)>, __Nonterminal<>);
-        match __lookahead {
-            Some((__loc1, __tok @ Tok('c', _, _, _), __loc2)) => {
-                let __sym2 = (__loc1, (__tok), __loc2);
-                __result = __state15(__tokens, __sym0, __sym1, __sym2, core::marker::PhantomData::<()>)?;
-                return Ok(__result);
-            }
-            _ => {
-                #[allow(clippy::needless_raw_string_hashes)]
-                let __expected = alloc::vec![
-                    r###""c""###.to_string(),
-                ];
-                return Err(
-                    match __lookahead {
-                        Some(__token) => {
-                            __lalrpop_util::ParseError::UnrecognizedToken {
-                                token: __token,
-                                expected: __expected,
-                            }
-                        }
-                        None => {
-                            let __location = __sym1.2.clone();
-                            __lalrpop_util::ParseError::UnrecognizedEof {
-                                location: __location,
-                                expected: __expected,
-                            }
-                        }
-                    }
-                )
-            }
-        }
-    }
-
-    fn __state11<
-        __TOKENS: Iterator<Item=Result<(i64, Tok, i64),__lalrpop_util::ParseError<i64, Tok, u64>>>,
-    >(
-        __tokens: &mut __TOKENS,
-        __lookahead: Option<(i64, Tok, i64)>,
-        __sym0: (i64, Tok, i64),
-        __sym1: (i64, Tree, i64),
-        _: core::marker::PhantomData<()>,
-    ) -> Result<(Option<(i64, Tok, i64)>, __Nonterminal<>), __lalrpop_util::ParseError<i64, Tok, u64>>
-    {
-        let mut __result: (Option<(i64, Tok, i64)>, __Nonterminal<>);
-        match __lookahead {
-            Some((__loc1, __tok @ Tok('d', _, _, _), __loc2)) => {
-                let __sym2 = (__loc1, (__tok), __loc2);
-                __result = __state16(__tokens, __sym0, __sym1, __sym2, core::marker::PhantomData::<()>)?;
-                return Ok(__result);
-            }
-            _ => {
-                #[allow(clippy::needless_raw_string_hashes)]
-                let __expected = alloc::vec![
-                    r###""d""###.to_string(),
-                ];
-                return Err(
-                    match __lookahead {
-                        Some(__token) => {
-                            __lalrpop_util::ParseError::UnrecognizedToken {
-                                token: __token,
-                                expected: __expected,
-                            }
-                        }
-                        None => {
-                            let __location = __sym1.2.clone();
-                            __lalrpop_util::ParseError::UnrecognizedEof {
-                                location: __location,
-                                expected: __expected,
-                            }
-                        }
-                    }
-                )
-            }
-        }
-    }
-
-    fn __state12<
-        __TOKENS: Iterator<Item=Result<(i64, Tok, i64),__lalrpop_util::ParseError<i64, Tok, u64>>>,
-    >(
-        __tokens: &mut __TOKENS,
         __sym0: (i64, Tok, i64),
         __sym1: (i64, Tree, i64),
         __sym2: (i64, Tok, i64),
@@ -776,7 +623,7 @@ mod __parse__S {
             None => {
                 let __start = __sym0.0.clone();
                 let __end = __sym2.2.clone();
-                let __nt = super::__action27::<>(__sym0, __sym1, __sym2);
+                let __nt = super::__action21::<>(__sym0, __sym1, __sym2);
                 let __nt = __Nonterminal::S((
                     __start,
                     __nt,
@@ -799,6 +646,131 @@ mod __parse__S {
                         }
                         None => {
                             let __location = __sym2.2.clone();
+                            __lalrpop_util::ParseError::UnrecognizedEof {
+                                location: __location,
+                                expected: __expected,
+                            }
+                        }
+                    }
+                )
+            }
+        }
+    }
+
+    fn __state11<
+        __TOKENS: Iterator<Item=Result<(i64, Tok, i64),__lalrpop_util::ParseError<i64, Tok, u64>>>,
+    >(
+        __tokens: &mut __TOKENS,
+        __sym0: (i64, Tok, i64),
+        __sym1: (i64, Tree, i64),
+        __sym2: (i64, Tok, i64),
+        _: core::marker::PhantomData<()>,
+    ) -> Result<(Option<(i64, Tok, i64)>, __Nonterminal<>), __lalrpop_util::ParseError<i64, Tok, u64>>
+    {
+        let mut __result: (Option<(i64, Tok, i64)>, __Nonterminal<>);
+        let __lookahead = match __tokens.next() {
+            Some(Ok(v)) => Some(v),
+            Some(Err(e)) => return Err(e),
+            None => None,
+        };
+        match __lookahead {
+            None => {
+                let __start = __sym0.0.clone();
+                let __end = __sym2.2.clone();
+                let __nt = super::__action22::<>(__sym0, __sym1, __sym2);
+                let __nt = __Nonterminal::S((
+                    __start,
+                    __nt,
+                    __end,
+                ));
+                __result = (__lookahead, __nt);
+                return Ok(__result);
+            }
+            _ => {
+                #[allow(clippy::needless_raw_string_hashes)]
+                let __expected = alloc::vec![
+                ];
+                return Err(
+                    match __lookahead {
+                        Some(__token) => {
+                            __lalrpop_util::ParseError::UnrecognizedToken {
+                                token: __token,
+                                expected: __expected,
+                            }
+                        }
+                        None => {
+                            let __location = __sym2.2.clone();
+                            __lalrpop_util::ParseError::UnrecognizedEof {
+                                location: __location,
+                                expected: __expected,
+                            }
+                        }
+                    }
+                )
+            }
+        }
+    }
+
+    fn __state12<
+        __TOKENS: Iterator<Item=Result<(i64, Tok, i64),__lalrpop_util::ParseError<i64, Tok, u64>>>,
+    >(
+        __tokens: &mut __TOKENS,
+        __lookahead: Option<(i64, Tok, i64)>,
+        __sym0: &mut Option<(i64, Tok, i64)>,
+        __sym1: (i64, Tree, i64),
+        _: core::marker::PhantomData<()>,
+    ) -> Result<(Option<(i64, Tok, i64)>, __Nonterminal<>), __lalrpop_util::ParseError<i64, Tok, u64>>
+    {
+        let mut __result: (Option<(i64, Tok, i64)>, __Nonterminal<>);
+        match __lookahead {
+            Some((__loc1, __tok @ Tok('f', _, _, _), __loc2)) => {
+                let __sym2 = (__loc1, (__tok), __loc2);
+                __result = __state16(__tokens, __sym1, __sym2, core::marker::PhantomData::<()>)?;
+                return Ok(__result);
+            }
+            Some((_, Tok('d', _, _, _), _)) => {
+                let __sym0 = __sym0.take().unwrap();
+                let __start = __sym0.0.clone();
+                let __end = __sym1.2.clone();
+                let __nt = super::__action25::<>(__sym0, __sym1);
+                let __nt = __Nonterminal::X((
+                    __start,
+                    __nt,
+                    __end,
+                ));
+                __result = (__lookahead, __nt);
+                return Ok(__result);
+            }
+            Some((_, Tok('c', _, _, _), _)) => {
+                let __sym0 = __sym0.take().unwrap();
+                let __start = __sym0.0.clone();
+                let __end = __sym1.2.clone();
+                let __nt = super::__action26::<>(__sym0, __sym1);
+                let __nt = __Nonterminal::Y((
+                    __start,
+                    __nt,
+                    __end,
+                ));
+                __result = (__lookahead, __nt);
+                return Ok(__result);
+            }
+            _ => {
+                #[allow(clippy::needless_raw_string_hashes)]
+                let __expected = alloc::vec![
+                    r###""c""###.to_string(),
+                    r###""d""###.to_string(),
+                    r###""q""###.to_string(),
+                ];
+                return Err(
+                    match __lookahead {
+                        Some(__token) => {
+                            __lalrpop_util::ParseError::UnrecognizedToken {
+                                token: __token,
+                                expected: __expected,
+                            }
+                        }
+                        None => {
+                            let __location = __sym1.2.clone();
                             __lalrpop_util::ParseError::UnrecognizedEof {
                                 location: __location,
                                 expected: __expected,
@@ -815,6 +787,63 @@ mod __parse__S {
     >(
         __tokens: &mut __TOKENS,
         __sym0: (i64, Tok, i64),
+        _: core::marker::PhantomData<()>,
+    ) -> Result<(Option<(i64, Tok, i64)>, __Nonterminal<>), __lalrpop_util::ParseError<i64, Tok, u64>>
+    {
+        let mut __result: (Option<(i64, Tok, i64)>, __Nonterminal<>);
+        let __lookahead = match __tokens.next() {
+            Some(Ok(v)) => Some(v),
+            Some(Err(e)) => return Err(e),
+            None => None,
+        };
+        match __lookahead {
+            Some((_, Tok('c', _, _, _), _)) |
+            Some((_, Tok('d', _, _, _), _)) |
+            Some((_, Tok('f', _, _, _), _)) => {
+                let __start = __sym0.0.clone();
+                let __end = __sym0.2.clone();
+                let __nt = super::__action19::<>(__sym0);
+                let __nt = __Nonterminal::Q0((
+                    __start,
+                    __nt,
+                    __end,
+                ));
+                __result = (__lookahead, __nt);
+                return Ok(__result);
+            }
+            _ => {
+                #[allow(clippy::needless_raw_string_hashes)]
+                let __expected = alloc::vec![
+                    r###""c""###.to_string(),
+                    r###""d""###.to_string(),
+                    r###""q""###.to_string(),
+                ];
+                return Err(
+                    match __lookahead {
+                        Some(__token) => {
+                            __lalrpop_util::ParseError::UnrecognizedToken {
+                                token: __token,
+                                expected: __expected,
+                            }
+                        }
+                        None => {
+                            let __location = __sym0.2.clone();
+                            __lalrpop_util::ParseError::UnrecognizedEof {
+                                location: __location,
+                                expected: __expected,
+                            }
+                        }
+                    }
+                )
+            }
+        }
+    }
+
+    fn __state14<
+        __TOKENS: Iterator<Item=Result<(i64, Tok, i64),__lalrpop_util::ParseError<i64, Tok, u64>>>,
+    >(
+        __tokens: &mut __TOKENS,
+        __sym0: (i64, Tok, i64),
         __sym1: (i64, Tree, i64),
         __sym2: (i64, Tok, i64),
         _: core::marker::PhantomData<()>,
@@ -830,7 +859,7 @@ mod __parse__S {
             None => {
                 let __start = __sym0.0.clone();
                 let __end = __sym2.2.clone();
-                let __nt = super::__action28::<>(__sym0, __sym1, __sym2);
+                let __nt = super::__action23::<>(__sym0, __sym1, __sym2);
                 let __nt = __Nonterminal::S((
                     __start,
                     __nt,
@@ -853,65 +882,6 @@ mod __parse__S {
                         }
                         None => {
                             let __location = __sym2.2.clone();
-                            __lalrpop_util::ParseError::UnrecognizedEof {
-                                location: __location,
-                                expected: __expected,
-                            }
-                        }
-                    }
-                )
-            }
-        }
-    }
-
-    fn __state14<
-        __TOKENS: Iterator<Item=Result<(i64, Tok, i64),__lalrpop_util::ParseError<i64, Tok, u64>>>,
-    >(
-        __tokens: &mut __TOKENS,
-        __sym0: (i64, Tok, i64),
-        _: core::marker::PhantomData<()>,
-    ) -> Result<(Option<(i64, Tok, i64)>, __Nonterminal<>), __lalrpop_util::ParseError<i64, Tok, u64>>
-    {
-        let mut __result: (Option<(i64, Tok, i64)>, __Nonterminal<>);
-        let __lookahead = match __tokens.next() {
-            Some(Ok(v)) => Some(v),
-            Some(Err(e)) => return Err(e),
-            None => None,
-        };
-        match __lookahead {
-            Some((_, Tok('c', _, _, _), _)) |
-            Some((_, Tok('d', _, _, _), _)) |
-            Some((_, Tok('f', _, _, _), _)) |
-            Some((_, Tok('g', _, _, _), _)) => {
-                let __start = __sym0.0.clone();
-                let __end = __sym0.2.clone();
-                let __nt = super::__action23::<>(__sym0);
-                let __nt = __Nonterminal::Q((
-                    __start,
-                    __nt,
-                    __end,
-                ));
-                __result = (__lookahead, __nt);
-                return Ok(__result);
-            }
-            _ => {
-                #[allow(clippy::needless_raw_string_hashes)]
-                let __expected = alloc::vec![
-                    r###""c""###.to_string(),
-                    r###""d""###.to_string(),
-                    r###""q""###.to_string(),
-                    r###""r""###.to_string(),
-                ];
-                return Err(
-                    match __lookahead {
-                        Some(__token) => {
-                            __lalrpop_util::ParseError::UnrecognizedToken {
-                                token: __token,
-                                expected: __expected,
-                            }
-                        }
-                        None => {
-                            let __location = __sym0.2.clone();
                             __lalrpop_util::ParseError::UnrecognizedEof {
                                 location: __location,
                                 expected: __expected,
@@ -943,7 +913,7 @@ mod __parse__S {
             None => {
                 let __start = __sym0.0.clone();
                 let __end = __sym2.2.clone();
-                let __nt = super::__action29::<>(__sym0, __sym1, __sym2);
+                let __nt = super::__action24::<>(__sym0, __sym1, __sym2);
                 let __nt = __Nonterminal::S((
                     __start,
                     __nt,
@@ -981,124 +951,6 @@ mod __parse__S {
         __TOKENS: Iterator<Item=Result<(i64, Tok, i64),__lalrpop_util::ParseError<i64, Tok, u64>>>,
     >(
         __tokens: &mut __TOKENS,
-        __sym0: (i64, Tok, i64),
-        __sym1: (i64, Tree, i64),
-        __sym2: (i64, Tok, i64),
-        _: core::marker::PhantomData<()>,
-    ) -> Result<(Option<(i64, Tok, i64)>, __Nonterminal<>), __lalrpop_util::ParseError<i64, Tok, u64>>
-    {
-        let mut __result: (Option<(i64, Tok, i64)>, __Nonterminal<>);
-        let __lookahead = match __tokens.next() {
-            Some(Ok(v)) => Some(v),
-            Some(Err(e)) => return Err(e),
-            None => None,
-        };
-        match __lookahead {
-            None => {
-                let __start = __sym0.0.clone();
-                let __end = __sym2.2.clone();
-                let __nt = super::__action30::<>(__sym0, __sym1, __sym2);
-                let __nt = __Nonterminal::S((
-                    __start,
-                    __nt,
-                    __end,
-                ));
-                __result = (__lookahead, __nt);
-                return Ok(__result);
-            }
-            _ => {
-                #[allow(clippy::needless_raw_string_hashes)]
-                let __expected = alloc::vec![
-                ];
-                return Err(
-                    match __lookahead {
-                        Some(__token) => {
-                            __lalrpop_util::ParseError::UnrecognizedToken {
-                                token: __token,
-                                expected: __expected,
-                            }
-                        }
-                        None => {
-                            let __location = __sym2.2.clone();
-                            __lalrpop_util::ParseError::UnrecognizedEof {
-                                location: __location,
-                                expected: __expected,
-                            }
-                        }
-                    }
-                )
-            }
-        }
-    }
-
-    fn __state17<
-        __TOKENS: Iterator<Item=Result<(i64, Tok, i64),__lalrpop_util::ParseError<i64, Tok, u64>>>,
-    >(
-        __tokens: &mut __TOKENS,
-        __lookahead: Option<(i64, Tok, i64)>,
-        __sym0: (i64, Tok, i64),
-        __sym1: (i64, Tree, i64),
-        __sym2: (i64, Tree, i64),
-        _: core::marker::PhantomData<()>,
-    ) -> Result<(Option<(i64, Tok, i64)>, __Nonterminal<>), __lalrpop_util::ParseError<i64, Tok, u64>>
-    {
-        let mut __result: (Option<(i64, Tok, i64)>, __Nonterminal<>);
-        match __lookahead {
-            Some((_, Tok('d', _, _, _), _)) => {
-                let __start = __sym0.0.clone();
-                let __end = __sym2.2.clone();
-                let __nt = super::__action31::<>(__sym0, __sym1, __sym2);
-                let __nt = __Nonterminal::X((
-                    __start,
-                    __nt,
-                    __end,
-                ));
-                __result = (__lookahead, __nt);
-                return Ok(__result);
-            }
-            Some((_, Tok('c', _, _, _), _)) => {
-                let __start = __sym0.0.clone();
-                let __end = __sym2.2.clone();
-                let __nt = super::__action32::<>(__sym0, __sym1, __sym2);
-                let __nt = __Nonterminal::Y((
-                    __start,
-                    __nt,
-                    __end,
-                ));
-                __result = (__lookahead, __nt);
-                return Ok(__result);
-            }
-            _ => {
-                #[allow(clippy::needless_raw_string_hashes)]
-                let __expected = alloc::vec![
-                    r###""c""###.to_string(),
-                    r###""d""###.to_string(),
-                ];
-                return Err(
-                    match __lookahead {
-                        Some(__token) => {
-                            __lalrpop_util::ParseError::UnrecognizedToken {
-                                token: __token,
-                                expected: __expected,
-                            }
-                        }
-                        None => {
-                            let __location = __sym2.2.clone();
-                            __lalrpop_util::ParseError::UnrecognizedEof {
-                                location: __location,
-                                expected: __expected,
-                            }
-                        }
-                    }
-                )
-            }
-        }
-    }
-
-    fn __state18<
-        __TOKENS: Iterator<Item=Result<(i64, Tok, i64),__lalrpop_util::ParseError<i64, Tok, u64>>>,
-    >(
-        __tokens: &mut __TOKENS,
         __sym0: (i64, Tree, i64),
         __sym1: (i64, Tok, i64),
         _: core::marker::PhantomData<()>,
@@ -1113,12 +965,11 @@ mod __parse__S {
         match __lookahead {
             Some((_, Tok('c', _, _, _), _)) |
             Some((_, Tok('d', _, _, _), _)) |
-            Some((_, Tok('f', _, _, _), _)) |
-            Some((_, Tok('g', _, _, _), _)) => {
+            Some((_, Tok('f', _, _, _), _)) => {
                 let __start = __sym0.0.clone();
                 let __end = __sym1.2.clone();
-                let __nt = super::__action24::<>(__sym0, __sym1);
-                let __nt = __Nonterminal::Q((
+                let __nt = super::__action20::<>(__sym0, __sym1);
+                let __nt = __Nonterminal::Q0((
                     __start,
                     __nt,
                     __end,
@@ -1132,7 +983,6 @@ mod __parse__S {
                     r###""c""###.to_string(),
                     r###""d""###.to_string(),
                     r###""q""###.to_string(),
-                    r###""r""###.to_string(),
                 ];
                 return Err(
                     match __lookahead {
@@ -1155,78 +1005,28 @@ mod __parse__S {
         }
     }
 
-    fn __state19<
-        __TOKENS: Iterator<Item=Result<(i64, Tok, i64),__lalrpop_util::ParseError<i64, Tok, u64>>>,
-    >(
-        __tokens: &mut __TOKENS,
-        __sym0: (i64, Tok, i64),
-        _: core::marker::PhantomData<()>,
-    ) -> Result<(Option<(i64, Tok, i64)>, __Nonterminal<>), __lalrpop_util::ParseError<i64, Tok, u64>>
-    {
-        let mut __result: (Option<(i64, Tok, i64)>, __Nonterminal<>);
-        let __lookahead = match __tokens.next() {
-            Some(Ok(v)) => Some(v),
-            Some(Err(e)) => return Err(e),
-            None => None,
-        };
-        match __lookahead {
-            Some((_, Tok('c', _, _, _), _)) |
-            Some((_, Tok('d', _, _, _), _)) => {
-                let __start = __sym0.0.clone();
-                let __end = __sym0.2.clone();
-                let __nt = super::__action26::<>(__sym0);
-                let __nt = __Nonterminal::R((
-                    __start,
-                    __nt,
-                    __end,
-                ));
-                __result = (__lookahead, __nt);
-                return Ok(__result);
-            }
-            _ => {
-                #[allow(clippy::needless_raw_string_hashes)]
-                let __expected = alloc::vec![
-                    r###""c""###.to_string(),
-                    r###""d""###.to_string(),
-                ];
-                return Err(
-                    match __lookahead {
-                        Some(__token) => {
-                            __lalrpop_util::ParseError::UnrecognizedToken {
-                                token: __token,
-                                expected: __expected,
-                            }
-                        }
-                        None => {
-                            let __location = __sym0.2.clone();
-                            __lalrpop_util::ParseError::UnrecognizedEof {
-                                location: __location,
-                                expected: __expected,
-                            }
-                        }
-                    }
-                )
-            }
-        }
-    }
-
-    fn __state20<
+    fn __state17<
         __TOKENS: Iterator<Item=Result<(i64, Tok, i64),__lalrpop_util::ParseError<i64, Tok, u64>>>,
     >(
         __tokens: &mut __TOKENS,
         __lookahead: Option<(i64, Tok, i64)>,
-        __sym0: (i64, Tok, i64),
+        __sym0: &mut Option<(i64, Tok, i64)>,
         __sym1: (i64, Tree, i64),
-        __sym2: (i64, Tree, i64),
         _: core::marker::PhantomData<()>,
     ) -> Result<(Option<(i64, Tok, i64)>, __Nonterminal<>), __lalrpop_util::ParseError<i64, Tok, u64>>
     {
         let mut __result: (Option<(i64, Tok, i64)>, __Nonterminal<>);
         match __lookahead {
+            Some((__loc1, __tok @ Tok('f', _, _, _), __loc2)) => {
+                let __sym2 = (__loc1, (__tok), __loc2);
+                __result = __state16(__tokens, __sym1, __sym2, core::marker::PhantomData::<()>)?;
+                return Ok(__result);
+            }
             Some((_, Tok('c', _, _, _), _)) => {
+                let __sym0 = __sym0.take().unwrap();
                 let __start = __sym0.0.clone();
-                let __end = __sym2.2.clone();
-                let __nt = super::__action31::<>(__sym0, __sym1, __sym2);
+                let __end = __sym1.2.clone();
+                let __nt = super::__action25::<>(__sym0, __sym1);
                 let __nt = __Nonterminal::X((
                     __start,
                     __nt,
@@ -1236,9 +1036,10 @@ mod __parse__S {
                 return Ok(__result);
             }
             Some((_, Tok('d', _, _, _), _)) => {
+                let __sym0 = __sym0.take().unwrap();
                 let __start = __sym0.0.clone();
-                let __end = __sym2.2.clone();
-                let __nt = super::__action32::<>(__sym0, __sym1, __sym2);
+                let __end = __sym1.2.clone();
+                let __nt = super::__action26::<>(__sym0, __sym1);
                 let __nt = __Nonterminal::Y((
                     __start,
                     __nt,
@@ -1252,6 +1053,7 @@ mod __parse__S {
                 let __expected = alloc::vec![
                     r###""c""###.to_string(),
                     r###""d""###.to_string(),
+                    r###""q""###.to_string(),
                 ];
                 return Err(
                     match __lookahead {
@@ -1262,7 +1064,7 @@ mod __parse__S {
                             }
                         }
                         None => {
-                            let __location = __sym2.2.clone();
+                            let __location = __sym1.2.clone();
                             __lalrpop_util::ParseError::UnrecognizedEof {
                                 location: __location,
                                 expected: __expected,
@@ -1344,11 +1146,10 @@ fn __action5<
     (_, l, _): (i64, i64, i64),
     (_, c0, _): (i64, Tok, i64),
     (_, c1, _): (i64, Tree, i64),
-    (_, c2, _): (i64, Tree, i64),
     (_, r, _): (i64, i64, i64),
 ) -> Tree
 {
-    node("X#0", l, r, vec![Tree::from(c0), Tree::from(c1), Tree::from(c2)])
+    node("X#0", l, r, vec![Tree::from(c0), Tree::from(c1)])
 }
 
 #[allow(clippy::too_many_arguments, clippy::needless_lifetimes, clippy::just_underscores_and_digits, clippy::extra_unused_type_parameters)]
@@ -1357,11 +1158,10 @@ fn __action6<
     (_, l, _): (i64, i64, i64),
     (_, c0, _): (i64, Tok, i64),
     (_, c1, _): (i64, Tree, i64),
-    (_, c2, _): (i64, Tree, i64),
     (_, r, _): (i64, i64, i64),
 ) -> Tree
 {
-    node("Y#0", l, r, vec![Tree::from(c0), Tree::from(c1), Tree::from(c2)])
+    node("Y#0", l, r, vec![Tree::from(c0), Tree::from(c1)])
 }
 
 #[allow(clippy::too_many_arguments, clippy::needless_lifetimes, clippy::just_underscores_and_digits, clippy::extra_unused_type_parameters)]
@@ -1372,7 +1172,7 @@ fn __action7<
     (_, r, _): (i64, i64, i64),
 ) -> Tree
 {
-    node("Q#0", l, r, vec![Tree::from(c0)])
+    node("Q0#0", l, r, vec![Tree::from(c0)])
 }
 
 #[allow(clippy::too_many_arguments, clippy::needless_lifetimes, clippy::just_underscores_and_digits, clippy::extra_unused_type_parameters)]
@@ -1384,32 +1184,11 @@ fn __action8<
     (_, r, _): (i64, i64, i64),
 ) -> Tree
 {
-    node("Q#1", l, r, vec![Tree::from(c0), Tree::from(c1)])
-}
-
-#[allow(clippy::too_many_arguments, clippy::needless_lifetimes, clippy::just_underscores_and_digits, clippy::extra_unused_type_parameters)]
-fn __action9<
->(
-    (_, l, _): (i64, i64, i64),
-    (_, r, _): (i64, i64, i64),
-) -> Tree
-{
-    node("R#0", l, r, vec![])
-}
-
-#[allow(clippy::too_many_arguments, clippy::needless_lifetimes, clippy::just_underscores_and_digits, clippy::extra_unused_type_parameters)]
-fn __action10<
->(
-    (_, l, _): (i64, i64, i64),
-    (_, c0, _): (i64, Tok, i64),
-    (_, r, _): (i64, i64, i64),
-) -> Tree
-{
-    node("R#1", l, r, vec![Tree::from(c0)])
+    node("Q0#1", l, r, vec![Tree::from(c0), Tree::from(c1)])
 }
 
 #[allow(clippy::needless_lifetimes, clippy::clone_on_copy)]
-fn __action11<
+fn __action9<
 >(
     __lookbehind: &i64,
     __lookahead: &i64,
@@ -1419,7 +1198,7 @@ fn __action11<
 }
 
 #[allow(clippy::needless_lifetimes, clippy::clone_on_copy)]
-fn __action12<
+fn __action10<
 >(
     __lookbehind: &i64,
     __lookahead: &i64,
@@ -1430,7 +1209,7 @@ fn __action12<
 
 #[allow(clippy::too_many_arguments, clippy::needless_lifetimes,
     clippy::just_underscores_and_digits, clippy::clone_on_copy, clippy::unit_arg)]
-fn __action13<
+fn __action11<
 >(
     __0: (i64, Tok, i64),
     __1: (i64, i64, i64),
@@ -1438,7 +1217,7 @@ fn __action13<
 {
     let __start0 = __0.0.clone();
     let __end0 = __0.0.clone();
-    let __temp0 = __action12(
+    let __temp0 = __action10(
         &__start0,
         &__end0,
     );
@@ -1452,7 +1231,7 @@ fn __action13<
 
 #[allow(clippy::too_many_arguments, clippy::needless_lifetimes,
     clippy::just_underscores_and_digits, clippy::clone_on_copy, clippy::unit_arg)]
-fn __action14<
+fn __action12<
 >(
     __0: (i64, Tree, i64),
     __1: (i64, Tok, i64),
@@ -1461,7 +1240,7 @@ fn __action14<
 {
     let __start0 = __0.0.clone();
     let __end0 = __0.0.clone();
-    let __temp0 = __action12(
+    let __temp0 = __action10(
         &__start0,
         &__end0,
     );
@@ -1476,49 +1255,7 @@ fn __action14<
 
 #[allow(clippy::too_many_arguments, clippy::needless_lifetimes,
     clippy::just_underscores_and_digits, clippy::clone_on_copy, clippy::unit_arg)]
-fn __action15<
->(
-    __0: (i64, i64, i64),
-) -> Tree
-{
-    let __start0 = __0.0.clone();
-    let __end0 = __0.0.clone();
-    let __temp0 = __action12(
-        &__start0,
-        &__end0,
-    );
-    let __temp0 = (__start0, __temp0, __end0);
-    __action9(
-        __temp0,
-        __0,
-    )
-}
-
-#[allow(clippy::too_many_arguments, clippy::needless_lifetimes,
-    clippy::just_underscores_and_digits, clippy::clone_on_copy, clippy::unit_arg)]
-fn __action16<
->(
-    __0: (i64, Tok, i64),
-    __1: (i64, i64, i64),
-) -> Tree
-{
-    let __start0 = __0.0.clone();
-    let __end0 = __0.0.clone();
-    let __temp0 = __action12(
-        &__start0,
-        &__end0,
-    );
-    let __temp0 = (__start0, __temp0, __end0);
-    __action10(
-        __temp0,
-        __0,
-        __1,
-    )
-}
-
-#[allow(clippy::too_many_arguments, clippy::needless_lifetimes,
-    clippy::just_underscores_and_digits, clippy::clone_on_copy, clippy::unit_arg)]
-fn __action17<
+fn __action13<
 >(
     __0: (i64, Tok, i64),
     __1: (i64, Tree, i64),
@@ -1528,7 +1265,7 @@ fn __action17<
 {
     let __start0 = __0.0.clone();
     let __end0 = __0.0.clone();
-    let __temp0 = __action12(
+    let __temp0 = __action10(
         &__start0,
         &__end0,
     );
@@ -1544,7 +1281,7 @@ fn __action17<
 
 #[allow(clippy::too_many_arguments, clippy::needless_lifetimes,
     clippy::just_underscores_and_digits, clippy::clone_on_copy, clippy::unit_arg)]
-fn __action18<
+fn __action14<
 >(
     __0: (i64, Tok, i64),
     __1: (i64, Tree, i64),
@@ -1554,7 +1291,7 @@ fn __action18<
 {
     let __start0 = __0.0.clone();
     let __end0 = __0.0.clone();
-    let __temp0 = __action12(
+    let __temp0 = __action10(
         &__start0,
         &__end0,
     );
@@ -1570,7 +1307,7 @@ fn __action18<
 
 #[allow(clippy::too_many_arguments, clippy::needless_lifetimes,
     clippy::just_underscores_and_digits, clippy::clone_on_copy, clippy::unit_arg)]
-fn __action19<
+fn __action15<
 >(
     __0: (i64, Tok, i64),
     __1: (i64, Tree, i64),
@@ -1580,7 +1317,7 @@ fn __action19<
 {
     let __start0 = __0.0.clone();
     let __end0 = __0.0.clone();
-    let __temp0 = __action12(
+    let __temp0 = __action10(
         &__start0,
         &__end0,
     );
@@ -1596,7 +1333,7 @@ fn __action19<
 
 #[allow(clippy::too_many_arguments, clippy::needless_lifetimes,
     clippy::just_underscores_and_digits, clippy::clone_on_copy, clippy::unit_arg)]
-fn __action20<
+fn __action16<
 >(
     __0: (i64, Tok, i64),
     __1: (i64, Tree, i64),
@@ -1606,7 +1343,7 @@ fn __action20<
 {
     let __start0 = __0.0.clone();
     let __end0 = __0.0.clone();
-    let __temp0 = __action12(
+    let __temp0 = __action10(
         &__start0,
         &__end0,
     );
@@ -1622,17 +1359,16 @@ fn __action20<
 
 #[allow(clippy::too_many_arguments, clippy::needless_lifetimes,
     clippy::just_underscores_and_digits, clippy::clone_on_copy, clippy::unit_arg)]
-fn __action21<
+fn __action17<
 >(
     __0: (i64, Tok, i64),
     __1: (i64, Tree, i64),
-    __2: (i64, Tree, i64),
-    __3: (i64, i64, i64),
+    __2: (i64, i64, i64),
 ) -> Tree
 {
     let __start0 = __0.0.clone();
     let __end0 = __0.0.clone();
-    let __temp0 = __action12(
+    let __temp0 = __action10(
         &__start0,
         &__end0,
     );
@@ -1642,23 +1378,21 @@ fn __action21<
         __0,
         __1,
         __2,
-        __3,
     )
 }
 
 #[allow(clippy::too_many_arguments, clippy::needless_lifetimes,
     clippy::just_underscores_and_digits, clippy::clone_on_copy, clippy::unit_arg)]
-fn __action22<
+fn __action18<
 >(
     __0: (i64, Tok, i64),
     __1: (i64, Tree, i64),
-    __2: (i64, Tree, i64),
-    __3: (i64, i64, i64),
+    __2: (i64, i64, i64),
 ) -> Tree
 {
     let __start0 = __0.0.clone();
     let __end0 = __0.0.clone();
-    let __temp0 = __action12(
+    let __temp0 = __action10(
         &__start0,
         &__end0,
     );
@@ -1668,25 +1402,24 @@ fn __action22<
         __0,
         __1,
         __2,
-        __3,
     )
 }
 
 #[allow(clippy::too_many_arguments, clippy::needless_lifetimes,
     clippy::just_underscores_and_digits, clippy::clone_on_copy, clippy::unit_arg)]
-fn __action23<
+fn __action19<
 >(
     __0: (i64, Tok, i64),
 ) -> Tree
 {
     let __start0 = __0.2.clone();
     let __end0 = __0.2.clone();
-    let __temp0 = __action11(
+    let __temp0 = __action9(
         &__start0,
         &__end0,
     );
     let __temp0 = (__start0, __temp0, __end0);
-    __action13(
+    __action11(
         __0,
         __temp0,
     )
@@ -1694,7 +1427,7 @@ fn __action23<
 
 #[allow(clippy::too_many_arguments, clippy::needless_lifetimes,
     clippy::just_underscores_and_digits, clippy::clone_on_copy, clippy::unit_arg)]
-fn __action24<
+fn __action20<
 >(
     __0: (i64, Tree, i64),
     __1: (i64, Tok, i64),
@@ -1702,12 +1435,12 @@ fn __action24<
 {
     let __start0 = __1.2.clone();
     let __end0 = __1.2.clone();
-    let __temp0 = __action11(
+    let __temp0 = __action9(
         &__start0,
         &__end0,
     );
     let __temp0 = (__start0, __temp0, __end0);
-    __action14(
+    __action12(
         __0,
         __1,
         __temp0,
@@ -1716,20 +1449,118 @@ fn __action24<
 
 #[allow(clippy::too_many_arguments, clippy::needless_lifetimes,
     clippy::just_underscores_and_digits, clippy::clone_on_copy, clippy::unit_arg)]
-fn __action25<
+fn __action21<
 >(
-    __lookbehind: &i64,
-    __lookahead: &i64,
+    __0: (i64, Tok, i64),
+    __1: (i64, Tree, i64),
+    __2: (i64, Tok, i64),
 ) -> Tree
 {
-    let __start0 = __lookbehind.clone();
-    let __end0 = __lookahead.clone();
-    let __temp0 = __action11(
+    let __start0 = __2.2.clone();
+    let __end0 = __2.2.clone();
+    let __temp0 = __action9(
+        &__start0,
+        &__end0,
+    );
+    let __temp0 = (__start0, __temp0, __end0);
+    __action13(
+        __0,
+        __1,
+        __2,
+        __temp0,
+    )
+}
+
+#[allow(clippy::too_many_arguments, clippy::needless_lifetimes,
+    clippy::just_underscores_and_digits, clippy::clone_on_copy, clippy::unit_arg)]
+fn __action22<
+>(
+    __0: (i64, Tok, i64),
+    __1: (i64, Tree, i64),
+    __2: (i64, Tok, i64),
+) -> Tree
+{
+    let __start0 = __2.2.clone();
+    let __end0 = __2.2.clone();
+    let __temp0 = __action9(
+        &__start0,
+        &__end0,
+    );
+    let __temp0 = (__start0, __temp0, __end0);
+    __action14(
+        __0,
+        __1,
+        __2,
+        __temp0,
+    )
+}
+
+#[allow(clippy::too_many_arguments, clippy::needless_lifetimes,
+    clippy::just_underscores_and_digits, clippy::clone_on_copy, clippy::unit_arg)]
+fn __action23<
+>(
+    __0: (i64, Tok, i64),
+    __1: (i64, Tree, i64),
+    __2: (i64, Tok, i64),
+) -> Tree
+{
+    let __start0 = __2.2.clone();
+    let __end0 = __2.2.clone();
+    let __temp0 = __action9(
         &__start0,
         &__end0,
     );
     let __temp0 = (__start0, __temp0, __end0);
     __action15(
+        __0,
+        __1,
+        __2,
+        __temp0,
+    )
+}
+
+#[allow(clippy::too_many_arguments, clippy::needless_lifetimes,
+    clippy::just_underscores_and_digits, clippy::clone_on_copy, clippy::unit_arg)]
+fn __action24<
+>(
+    __0: (i64, Tok, i64),
+    __1: (i64, Tree, i64),
+    __2: (i64, Tok, i64),
+) -> Tree
+{
+    let __start0 = __2.2.clone();
+    let __end0 = __2.2.clone();
+    let __temp0 = __action9(
+        &__start0,
+        &__end0,
+    );
+    let __temp0 = (__start0, __temp0, __end0);
+    __action16(
+        __0,
+        __1,
+        __2,
+        __temp0,
+    )
+}
+
+#[allow(clippy::too_many_arguments, clippy::needless_lifetimes,
+    clippy::just_underscores_and_digits, clippy::clone_on_copy, clippy::unit_arg)]
+fn __action25<
+>(
+    __0: (i64, Tok, i64),
+    __1: (i64, Tree, i64),
+) -> Tree
+{
+    let __start0 = __1.2.clone();
+    let __end0 = __1.2.clone();
+    let __temp0 = __action9(
+        &__start0,
+        &__end0,
+    );
+    let __temp0 = (__start0, __temp0, __end0);
+    __action17(
+        __0,
+        __1,
         __temp0,
     )
 }
@@ -1739,57 +1570,12 @@ fn __action25<
 fn __action26<
 >(
     __0: (i64, Tok, i64),
-) -> Tree
-{
-    let __start0 = __0.2.clone();
-    let __end0 = __0.2.clone();
-    let __temp0 = __action11(
-        &__start0,
-        &__end0,
-    );
-    let __temp0 = (__start0, __temp0, __end0);
-    __action16(
-        __0,
-        __temp0,
-    )
-}
-
-#[allow(clippy::too_many_arguments, clippy::needless_lifetimes,
-    clippy::just_underscores_and_digits, clippy::clone_on_copy, clippy::unit_arg)]
-fn __action27<
->(
-    __0: (i64, Tok, i64),
     __1: (i64, Tree, i64),
-    __2: (i64, Tok, i64),
 ) -> Tree
 {
-    let __start0 = __2.2.clone();
-    let __end0 = __2.2.clone();
-    let __temp0 = __action11(
-        &__start0,
-        &__end0,
-    );
-    let __temp0 = (__start0, __temp0, __end0);
-    __action17(
-        __0,
-        __1,
-        __2,
-        __temp0,
-    )
-}
-
-#[allow(clippy::too_many_arguments, clippy::needless_lifetimes,
-    clippy::just_underscores_and_digits, clippy::clone_on_copy, clippy::unit_arg)]
-fn __action28<
->(
-    __0: (i64, Tok, i64),
-    __1: (i64, Tree, i64),
-    __2: (i64, Tok, i64),
-) -> Tree
-{
-    let __start0 = __2.2.clone();
-    let __end0 = __2.2.clone();
-    let __temp0 = __action11(
+    let __start0 = __1.2.clone();
+    let __end0 = __1.2.clone();
+    let __temp0 = __action9(
         &__start0,
         &__end0,
     );
@@ -1797,103 +1583,6 @@ fn __action28<
     __action18(
         __0,
         __1,
-        __2,
-        __temp0,
-    )
-}
-
-#[allow(clippy::too_many_arguments, clippy::needless_lifetimes,
-    clippy::just_underscores_and_digits, clippy::clone_on_copy, clippy::unit_arg)]
-fn __action29<
->(
-    __0: (i64, Tok, i64),
-    __1: (i64, Tree, i64),
-    __2: (i64, Tok, i64),
-) -> Tree
-{
-    let __start0 = __2.2.clone();
-    let __end0 = __2.2.clone();
-    let __temp0 = __action11(
-        &__start0,
-        &__end0,
-    );
-    let __temp0 = (__start0, __temp0, __end0);
-    __action19(
-        __0,
-        __1,
-        __2,
-        __temp0,
-    )
-}
-
-#[allow(clippy::too_many_arguments, clippy::needless_lifetimes,
-    clippy::just_underscores_and_digits, clippy::clone_on_copy, clippy::unit_arg)]
-fn __action30<
->(
-    __0: (i64, Tok, i64),
-    __1: (i64, Tree, i64),
-    __2: (i64, Tok, i64),
-) -> Tree
-{
-    let __start0 = __2.2.clone();
-    let __end0 = __2.2.clone();
-    let __temp0 = __action11(
-        &__start0,
-        &__end0,
-    );
-    let __temp0 = (__start0, __temp0, __end0);
-    __action20(
-        __0,
-        __1,
-        __2,
-        __temp0,
-    )
-}
-
-#[allow(clippy::too_many_arguments, clippy::needless_lifetimes,
-    clippy::just_underscores_and_digits, clippy::clone_on_copy, clippy::unit_arg)]
-fn __action31<
->(
-    __0: (i64, Tok, i64),
-    __1: (i64, Tree, i64),
-    __2: (i64, Tree, i64),
-) -> Tree
-{
-    let __start0 = __2.2.clone();
-    let __end0 = __2.2.clone();
-    let __temp0 = __action11(
-        &__start0,
-        &__end0,
-    );
-    let __temp0 = (__start0, __temp0, __end0);
-    __action21(
-        __0,
-        __1,
-        __2,
-        __temp0,
-    )
-}
-
-#[allow(clippy::too_many_arguments, clippy::needless_lifetimes,
-    clippy::just_underscores_and_digits, clippy::clone_on_copy, clippy::unit_arg)]
-fn __action32<
->(
-    __0: (i64, Tok, i64),
-    __1: (i64, Tree, i64),
-    __2: (i64, Tree, i64),
-) -> Tree
-{
-    let __start0 = __2.2.clone();
-    let __end0 = __2.2.clone();
-    let __temp0 = __action11(
-        &__start0,
-        &__end0,
-    );
-    let __temp0 = (__start0, __temp0, __end0);
-    __action22(
-        __0,
-        __1,
-        __2,
         __temp0,
     )
 }
